@@ -210,8 +210,33 @@ pub fn is_garbage_only(s: &str) -> bool {
     toks.iter().all(|t| {
         let c = t.chars().next().unwrap();
         let known = ["foo", "1.y", ">=1.y", "1.2.3.4", "~1.2.3.4", "1.2beta4", "!1", "latest", ".1", "1..2", "bar", "zz"];
-        known.contains(t) || !(c.is_ascii_digit() || "xX*<>=~^vV-|".contains(c))
+        known.contains(t) || !(c.is_ascii_digit() || "xX*<>=~^vV-|".contains(c)) || has_out_of_range_component(t)
     })
+}
+
+/// operator(s) + dotted digit runs where one of the first three components exceeds MAX_SAFE_INTEGER
+/// (or u64): such a token is not a valid comparator
+fn has_out_of_range_component(t: &str) -> bool {
+    let body = t.trim_start_matches(|c| "<>=~^v".contains(c));
+    let mut n = 0;
+    for part in body.split('.') {
+        if n >= 3 {
+            break;
+        }
+        n += 1;
+        if part.is_empty() || !part.bytes().all(|b| b.is_ascii_digit()) {
+            // x-range components are fine; anything else: stop looking (the qualifier may start here)
+            if part == "x" || part == "X" || part == "*" {
+                continue;
+            }
+            return false;
+        }
+        match part.parse::<u64>() {
+            Ok(v) if v <= max_int() => {}
+            _ => return true,
+        }
+    }
+    false
 }
 
 pub fn garbage_text() -> BoxedStrategy<String> {
